@@ -209,6 +209,20 @@ CLAIMED = {
         "dynamic symbolic execution of the real Python code (vx) + z3 equalities, per-path witness replay through the real ASDF library",
         "DESIGN.md section 4 C18",
     ),
+    "C19": (
+        "model_checking",
+        "create_output_directory against a symbolic file system (existence of each candidate directory a symbolic boolean = also what a "
+        "concurrent start may have created, opaque clock so that all starts may fall into the same second, mkdir the atomic test-and-create; "
+        "<= 6 colliding candidates): the returned directory is created by this call, did not exist, three successive calls return three "
+        "different directories. Nine writers (write_to_fits/npy/jpg, to_fits/npy/txt/csv/png/jpg) with a symbolic exists(target): on no path "
+        "is a write primitive reached for a target that may exist. apply_run_number over a symbolic set of used numbers, build_filenames "
+        "injective and complete over all save lists of 3 buckets x 3 formats, per-run suffixes disjoint, parallel index array a bijection, "
+        "save_to_files reports every request once and never overwrites.",
+        "Write primitives are recorders honouring their documented overwrite contract; file contents / lossless read-back (astropy, numpy, PIL) "
+        "and the HDF5 writer are outside; OS-level atomicity of mkdir assumed.",
+        "dynamic symbolic execution of the real Python code (vx) + z3 Bool/LIA over a symbolic file system",
+        "DESIGN.md section 4 C19",
+    ),
 }
 
 NOT_APPLICABLE = {
